@@ -206,6 +206,35 @@ chk_arm("onsub_family", r"&OnSub\(n\) \| &BySub\(n\) \| &WithSub\(n\) \| &OffSub
         req=["n <= 0xFFFF"], sig="fn {name}(&mut self, args: &[SigNode], n: usize) -> (r: Result<(), SigCheckError>)",
         desc="on_n / by_n / with_n / off_n F : |m.(m-a+o+n) with m = max(a,n): the modifier reads max(n, a) values — the same count the run-time arms need (C07.e2.rt.arm_onsub/bysub/withsub)")
 
+chk_arm("array", r"Node::Array \{ len, inner, \.\. \}", ["C02"],
+        ["r.is_ok() ==> sv(final(self).stack) == app(app(sv(old(self).stack), node_sig(*inner).args as int, node_sig(*inner).outputs as int), *len as int, 1)",
+         "r.is_ok() ==> sv(final(self).under) == app(sv(old(self).under), node_sig(*inner).under_args as int, node_sig(*inner).under_outputs as int)"],
+        req=["*len <= 0x10000"], sig="fn {name}(&mut self, len: &usize, inner: &Node) -> (r: Result<(), SigCheckError>)",
+        desc="array literal: the inner code runs, then exactly `len` values become one")
+chk_arm("unpack", r"Node::Unpack \{ count, \.\. \}", ["C02"],
+        ["r.is_ok() ==> sv(final(self).stack) == app(sv(old(self).stack), 1, *count as int)", "final(self).under == old(self).under"],
+        req=["*count <= 0x10000"], sig="fn {name}(&mut self, count: &usize) -> (r: Result<(), SigCheckError>)",
+        desc="unpack: one array becomes `count` values")
+chk_arm("switch", r"&Node::Switch \{\s*sig, under_cond, \.\.\s*\}", ["C02"],
+        ["r.is_ok() ==> sv(final(self).stack) == app(app(sv(old(self).stack), 1, 0), sig.args as int, sig.outputs as int)",
+         "r.is_ok() ==> sv(final(self).under) == app(app(sv(old(self).under), sig.under_args as int, sig.under_outputs as int), 0, if under_cond { 1int } else { 0int })"],
+        sig="fn {name}(&mut self, sig: Signature, under_cond: bool) -> (r: Result<(), SigCheckError>)",
+        desc="switch: the selector is consumed, then the branches' common signature; an under-switch stashes the selector on the context stack")
+chk_arm("call_global", r"Node::CallMacro \{ sig, \.\. \} \| Node::CallGlobal\(_, sig\)", ["C02"],
+        both_views("sig.args as int", "sig.outputs as int", "sig.under_args as int", "sig.under_outputs as int"),
+        sig="fn {name}(&mut self, sig: &Signature) -> (r: Result<(), SigCheckError>)",
+        desc="a call of a bound function / macro is checked with the signature recorded at the call site")
+chk_arm("try_pattern", r"Try \| Pattern", ["C02", "C11"],
+        both_views("try_sig_spec(args@).args as int", "try_sig_spec(args@).outputs as int", "try_sig_spec(args@).under_args as int", "try_sig_spec(args@).under_outputs as int"),
+        desc="try / pattern are checked with exactly the signature `try_sig` computes — the function the run-time `try_` uses too")
+U(id="C02.e2.venv.fill", props=["C02"], kind="fn", file=CHK, impl=VENVIMPL, impl_name="VirtualEnv", fn="fill",
+  target="impl VirtualEnv", ret="r", requires=[SMALL],
+  rewrites=[("R2", r"let \[fill, f\] = get_args_nodes\(args\)\?;", "let (fill, f) = get_args_nodes_2(args)?;", "slice pattern (2) -> arity-checked shim fn")],
+  ensures=["r.is_ok() ==> args@.len() == 2",
+           "r.is_ok() && args@[0].sig.outputs > 0 ==> sv(final(self).stack) == app(app(app(sv(old(self).stack), args@[0].sig.args as int, args@[0].sig.outputs as int), args@[0].sig.outputs as int, 0), args@[1].sig.args as int, args@[1].sig.outputs as int)",
+           "r.is_ok() && args@[0].sig.outputs == 0 ==> sv(final(self).stack) == app(app(sv(old(self).stack), 0, 0), args@[1].sig.args as int, args@[1].sig.outputs as int)"],
+  desc="fill: a fill function that produces values runs first and its outputs are consumed as the fill value(s); then F")
+
 NSIG = "fn {name}(&mut self, n: &usize) -> (r: Result<(), SigCheckError>)"
 LOOPINV = lambda a, o, ua, uo: [
     "invariant",
